@@ -465,6 +465,7 @@ def run(ctx):
         tasks.append(("spell", ctx.rng.getrandbits(62), ctx.n(700, 8000)))
         tasks.append(("coreimport", ctx.rng.getrandbits(62), ctx.n(1500, 40000)))
         tasks.append(("msdecode", (ctx.rng.getrandbits(60) << 1) | part, ctx.n(9000, 10**7)))
+    tasks.append(("jsonint", ctx.rng.getrandbits(62), 0))    # one-byte int fields of the taproot records, every boundary value
     for part in range(4):           # every class's accepted objects through the whole introspected consumer matrix
         tasks.append(("matrix", (ctx.rng.getrandbits(56) << 2) | part, ctx.n(800, 40000)))
     for part in range(8):           # trailing bytes after every parse(stream) entry point: entry point k goes to task k mod 8
